@@ -54,12 +54,14 @@ package logql
 //@   requires p.pos >= 0
 //@   modifies nothing
 //@   ensures ret0.Type == peekTok(p)
+//@   ensures[token-at-cursor] peekTok(p) != lexer.EOF ==> ret0.Text == p.tokens[p.pos].Text
 
 //@ func (*parser).next
 //@   requires p.pos >= 0
 //@   modifies p.pos
 //@   ensures ret0.Type == old(peekTok(p))
 //@   ensures p.pos == old(p.pos) + ite(old(peekTok(p)) == lexer.EOF, 0, 1)
+//@   ensures[token-at-cursor] old(peekTok(p)) != lexer.EOF ==> ret0.Text == p.tokens[old(p.pos)].Text
 
 //@ func (*parser).peekBinOp
 //@   requires p.pos >= 0
@@ -118,28 +120,12 @@ package logql
 //@   requires p.pos >= 0
 //@   modifies p.pos
 //@   ensures p.pos >= old(p.pos)
+//@   ensures[one-token] p.pos == old(p.pos) + ite(old(peekTok(p)) == lexer.EOF, 0, 1)
+//@   ensures[expected-type-only] (ret0 == nil) == (old(peekTok(p)) == tt)
 
 //@ func (*parser).unexpectedToken
 //@   modifies nothing
 //@   ensures ret0 != nil
-
-//@ func (*parser).parseRangeAggregationExpr
-//@   trusted
-//@   requires p.pos >= 0
-//@   modifies p.pos
-//@   ensures p.pos >= old(p.pos)
-
-//@ func (*parser).parseVectorAggregationExpr
-//@   trusted
-//@   requires p.pos >= 0
-//@   modifies p.pos
-//@   ensures p.pos >= old(p.pos)
-
-//@ func (*parser).parseLiteralExpr
-//@   trusted
-//@   requires p.pos >= 0
-//@   modifies p.pos
-//@   ensures p.pos >= old(p.pos)
 
 //@ func (*parser).parseLabelReplace
 //@   trusted
@@ -167,16 +153,25 @@ package logql
 //@   modifies p.pos
 //@   ensures p.pos >= old(p.pos)
 //@   ensures[text-of-consumed-token] ret2 == nil ==> ret0 == ret1.Text && ret1.Type == tt
+//@   ensures[one-token] p.pos == old(p.pos) + ite(old(peekTok(p)) == lexer.EOF, 0, 1)
+//@   ensures[expected-type-only] (ret2 == nil) == (old(peekTok(p)) == tt)
+//@   ensures[text-at-cursor] ret2 == nil && tt != lexer.EOF ==> ret0 == p.tokens[old(p.pos)].Text
 
 //@ func (*parser).parseIdent
 //@   requires p.pos >= 0
 //@   modifies p.pos
 //@   ensures p.pos >= old(p.pos)
+//@   ensures[one-token] p.pos == old(p.pos) + ite(old(peekTok(p)) == lexer.EOF, 0, 1)
+//@   ensures[ident-token-only] (ret1 == nil) == (old(peekTok(p)) == lexer.Ident)
+//@   ensures[text-at-cursor] ret1 == nil ==> ret0 == Label(p.tokens[old(p.pos)].Text)
 
 //@ func (*parser).parseString
 //@   requires p.pos >= 0
 //@   modifies p.pos
 //@   ensures p.pos >= old(p.pos)
+//@   ensures[one-token] p.pos == old(p.pos) + ite(old(peekTok(p)) == lexer.EOF, 0, 1)
+//@   ensures[string-token-only] (ret1 == nil) == (old(peekTok(p)) == lexer.String)
+//@   ensures[text-at-cursor] ret1 == nil ==> ret0 == p.tokens[old(p.pos)].Text
 
 // label_format dst=src renames label src to dst; dst="tmpl" sets dst to the template expansion.
 //@ func (*parser).parseLabelFormatExpr
@@ -191,3 +186,288 @@ package logql
 //@   loop 0 body_ensures[template-sets-target] tpl_called ==> len(lf.Values) == head(len(lf.Values))+1 && lf.Values[len(lf.Values)-1].Label == Label(dst_r0) && lf.Values[len(lf.Values)-1].Template == tpl_r0
 //@   loop 0 exit_ensures[template-sets-target] tpl_called && tpl_r1 == nil ==> len(lf.Values) == head(len(lf.Values))+1 && lf.Values[len(lf.Values)-1].Label == Label(dst_r0) && lf.Values[len(lf.Values)-1].Template == tpl_r0
 //@   loop 0 body_ensures[target-recorded-once] dst_called && !head(has(labels, Label(dst_r0))) && has(labels, Label(dst_r0))
+
+// ---- C05: query text is parsed into the structure it denotes.
+//
+// The contracts below pin the parser to the token sequence: leaf parsers consume exactly one token
+// of the expected type and return its text; dispatch tables map each operator / function token to
+// the operation named after it; the static rules of validate() are stated as decision tables.
+
+//@ spec func tokType(p *parser, i int) lexer.TokenType { return p.tokens[i].Type }
+//@ spec func tokText(p *parser, i int) string { return p.tokens[i].Text }
+//@ spec func step(t lexer.TokenType) int { return ite(t == lexer.EOF, 0, 1) }
+
+//@ func (*parser).unread
+//@   requires p.pos >= 0
+//@   modifies p.pos
+//@   ensures p.pos == ite(old(p.pos) > 0, old(p.pos) - 1, old(p.pos))
+
+//@ func (*parser).parseNumber
+//@   requires p.pos >= 0
+//@   capture pf = call(strconv.ParseFloat, 0)
+//@   modifies p.pos
+//@   ensures p.pos == old(p.pos) + step(old(peekTok(p)))
+//@   ensures[number-token-only] ret1 == nil ==> old(peekTok(p)) == lexer.Number
+//@   ensures[value-of-text] ret1 == nil ==> pf_called && pf_a0 == tokText(p, old(p.pos)) && pf_a1 == 64 && same(ret0, pf_r0)
+
+//@ func (*parser).parseInt
+//@   requires p.pos >= 0
+//@   capture pi = call(strconv.Atoi, 0)
+//@   modifies p.pos
+//@   ensures p.pos == old(p.pos) + step(old(peekTok(p)))
+//@   ensures[number-token-only] ret1 == nil ==> old(peekTok(p)) == lexer.Number
+//@   ensures[value-of-text] ret1 == nil ==> pi_called && pi_a0 == tokText(p, old(p.pos)) && ret0 == pi_r0
+
+//@ func (*parser).parseDuration
+//@   requires p.pos >= 0
+//@   capture pd = call(lexerql.ParseDuration, 0)
+//@   modifies p.pos
+//@   ensures p.pos == old(p.pos) + step(old(peekTok(p)))
+//@   ensures[duration-token-only] ret1 == nil ==> old(peekTok(p)) == lexer.Duration
+//@   ensures[value-of-text] ret1 == nil ==> pd_called && pd_a0 == tokText(p, old(p.pos)) && ret0 == pd_r0
+
+//@ func (*parser).parseBytes
+//@   requires p.pos >= 0
+//@   capture pb = call(humanize.ParseBytes, 0)
+//@   modifies p.pos
+//@   ensures p.pos == old(p.pos) + step(old(peekTok(p)))
+//@   ensures[bytes-token-only] ret1 == nil ==> old(peekTok(p)) == lexer.Bytes
+//@   ensures[value-of-text] ret1 == nil ==> pb_called && pb_a0 == tokText(p, old(p.pos)) && ret0 == pb_r0
+
+// Line filter: |= contains, |~ regex, != not-contains, !~ not-regex; ip() only with |= and !=.
+//@ spec func lineFilterOp(t lexer.TokenType) BinOp {
+//@   if t == lexer.PipeExact { return OpEq }
+//@   if t == lexer.PipeMatch { return OpRe }
+//@   if t == lexer.NotEq { return OpNotEq }
+//@   if t == lexer.NotRe { return OpNotRe }
+//@   return 0
+//@ }
+//@ func (*parser).parseLineFilter
+//@   requires p.pos >= 0
+//@   modifies p.pos
+//@   ensures p.pos >= old(p.pos)
+//@   ensures[op-of-token] ret1 == nil ==> ret0 != nil && ret0.Op == lineFilterOp(old(peekTok(p))) && ret0.Op != 0
+//@   ensures[plain-value] ret1 == nil && tokType(p, old(p.pos)+1) == lexer.String ==> !ret0.IP && ret0.Value == tokText(p, old(p.pos)+1) && p.pos == old(p.pos)+2
+//@   ensures[ip-value] ret1 == nil && tokType(p, old(p.pos)+1) != lexer.String ==> ret0.IP && tokType(p, old(p.pos)+1) == lexer.IP && tokType(p, old(p.pos)+2) == lexer.OpenParen &&
+//@       tokType(p, old(p.pos)+3) == lexer.String && ret0.Value == tokText(p, old(p.pos)+3) && tokType(p, old(p.pos)+4) == lexer.CloseParen && p.pos == old(p.pos)+5
+//@   ensures[ip-only-with-equality] ret1 == nil && ret0.IP ==> ret0.Op == OpEq || ret0.Op == OpNotEq
+//@   ensures[regex-compiled] ret1 == nil && !ret0.IP && (ret0.Op == OpRe || ret0.Op == OpNotRe) ==> ret0.Re != nil
+
+// Static rules of range aggregations.
+//@ spec func rangeAggValid(op RangeOp, hasParam bool, hasGrouping bool, hasUnwrap bool) bool {
+//@   return hasParam == (op == RangeOpQuantile) &&
+//@     (hasGrouping ==> op == RangeOpAvg || op == RangeOpStddev || op == RangeOpStdvar || op == RangeOpQuantile || op == RangeOpMax || op == RangeOpMin || op == RangeOpFirst || op == RangeOpLast) &&
+//@     (hasUnwrap ==> op == RangeOpAvg || op == RangeOpSum || op == RangeOpMax || op == RangeOpMin || op == RangeOpStddev || op == RangeOpStdvar || op == RangeOpQuantile ||
+//@                    op == RangeOpRate || op == RangeOpRateCounter || op == RangeOpAbsent || op == RangeOpFirst || op == RangeOpLast) &&
+//@     (!hasUnwrap ==> op == RangeOpBytes || op == RangeOpBytesRate || op == RangeOpCount || op == RangeOpRate || op == RangeOpAbsent)
+//@ }
+//@ func (*RangeAggregationExpr).validate
+//@   requires e != nil
+//@   modifies nothing
+//@   ensures[static-rules] (ret0 == nil) == rangeAggValid(e.Op, e.Parameter != nil, e.Grouping != nil, e.Range.Unwrap != nil)
+
+//@ spec func vectorAggValid(op VectorOp, hasParam bool, param int, hasGrouping bool) bool {
+//@   return ite(op == VectorOpTopk || op == VectorOpBottomk, hasParam && param > 0, !hasParam) &&
+//@     ((op == VectorOpSort || op == VectorOpSortDesc) ==> !hasGrouping)
+//@ }
+//@ func (*VectorAggregationExpr).validate
+//@   requires e != nil
+//@   modifies nothing
+//@   ensures[static-rules] (ret0 == nil) == vectorAggValid(e.Op, e.Parameter != nil, *e.Parameter, e.Grouping != nil)
+
+//@ spec func rangeOpOf(t lexer.TokenType) RangeOp {
+//@   if t == lexer.CountOverTime { return RangeOpCount }
+//@   if t == lexer.Rate { return RangeOpRate }
+//@   if t == lexer.RateCounter { return RangeOpRateCounter }
+//@   if t == lexer.BytesOverTime { return RangeOpBytes }
+//@   if t == lexer.BytesRate { return RangeOpBytesRate }
+//@   if t == lexer.AvgOverTime { return RangeOpAvg }
+//@   if t == lexer.SumOverTime { return RangeOpSum }
+//@   if t == lexer.MinOverTime { return RangeOpMin }
+//@   if t == lexer.MaxOverTime { return RangeOpMax }
+//@   if t == lexer.StdvarOverTime { return RangeOpStdvar }
+//@   if t == lexer.StddevOverTime { return RangeOpStddev }
+//@   if t == lexer.QuantileOverTime { return RangeOpQuantile }
+//@   if t == lexer.FirstOverTime { return RangeOpFirst }
+//@   if t == lexer.LastOverTime { return RangeOpLast }
+//@   if t == lexer.AbsentOverTime { return RangeOpAbsent }
+//@   return 0
+//@ }
+//@ spec func vectorOpOf(t lexer.TokenType) VectorOp {
+//@   if t == lexer.Sum { return VectorOpSum }
+//@   if t == lexer.Avg { return VectorOpAvg }
+//@   if t == lexer.Count { return VectorOpCount }
+//@   if t == lexer.Max { return VectorOpMax }
+//@   if t == lexer.Min { return VectorOpMin }
+//@   if t == lexer.Stddev { return VectorOpStddev }
+//@   if t == lexer.Stdvar { return VectorOpStdvar }
+//@   if t == lexer.Bottomk { return VectorOpBottomk }
+//@   if t == lexer.Topk { return VectorOpTopk }
+//@   if t == lexer.Sort { return VectorOpSort }
+//@   if t == lexer.SortDesc { return VectorOpSortDesc }
+//@   return 0
+//@ }
+
+//@ func (*parser).parseRangeExpr
+//@   trusted
+//@   requires p.pos >= 0
+//@   modifies p.pos
+//@   ensures p.pos >= old(p.pos)
+
+//@ func (*parser).parseLabels
+//@   trusted
+//@   requires p.pos >= 0
+//@   modifies p.pos
+//@   ensures p.pos >= old(p.pos)
+
+//@ func (*parser).parseMetricExpr
+//@   trusted
+//@   requires p.pos >= 0
+//@   modifies p.pos
+//@   ensures p.pos >= old(p.pos)
+
+//@ func (*parser).parseGrouping
+//@   requires p.pos >= 0
+//@   capture ls = call(p.parseLabels, 0)
+//@   modifies p.pos
+//@   ensures p.pos >= old(p.pos)
+//@   ensures[by-or-without] ret1 == nil ==> ret0 != nil && (old(peekTok(p)) == lexer.By || old(peekTok(p)) == lexer.Without) && ret0.Without == (old(peekTok(p)) == lexer.Without)
+//@   ensures[labels] ret1 == nil ==> ls_called && same(ret0.Labels, ls_r0)
+
+//@ func (*parser).parseRangeAggregationExpr
+//@   requires p.pos >= 0
+//@   capture num = call(p.parseNumber, 0)
+//@   capture rng = call(p.parseRangeExpr, 0)
+//@   capture grp = call(p.parseGrouping, 0)
+//@   modifies p.pos
+//@   ensures p.pos >= old(p.pos)
+//@   ensures[op-of-token] ret1 == nil ==> ret0 != nil && ret0.Op == rangeOpOf(old(peekTok(p))) && ret0.Op != 0
+//@   ensures[static-rules] ret1 == nil ==> rangeAggValid(ret0.Op, ret0.Parameter != nil, ret0.Grouping != nil, ret0.Range.Unwrap != nil)
+//@   ensures[parameter] ret1 == nil ==> (ret0.Parameter != nil) == num_called && (num_called ==> same(*ret0.Parameter, num_r0))
+//@   ensures[range] ret1 == nil ==> rng_called && same(ret0.Range, rng_r0)
+//@   ensures[grouping] ret1 == nil ==> (ret0.Grouping != nil ==> grp_called && ret0.Grouping == grp_r0) && (!grp_called ==> ret0.Grouping == nil)
+
+//@ func (*parser).parseVectorAggregationExpr
+//@   requires p.pos >= 0
+//@   requires[called-on-aggregation-token] vectorOpOf(peekTok(p)) != 0
+//@   capture num = call(p.parseInt, 0)
+//@   capture sub = call(p.parseMetricExpr, 0)
+//@   modifies p.pos
+//@   ensures p.pos >= old(p.pos)
+//@   ensures[op-of-token] ret1 == nil ==> ret0 != nil && ret0.Op == vectorOpOf(old(peekTok(p))) && ret0.Op != 0
+//@   ensures[static-rules] ret1 == nil ==> vectorAggValid(ret0.Op, ret0.Parameter != nil, *ret0.Parameter, ret0.Grouping != nil)
+//@   ensures[parameter] ret1 == nil ==> (ret0.Parameter != nil) == num_called && (num_called ==> *ret0.Parameter == num_r0)
+//@   ensures[operand] ret1 == nil ==> sub_called && ret0.Expr == sub_r0
+
+//@ func (*parser).parseLiteralExpr
+//@   requires p.pos >= 0
+//@   capture num = call(p.parseNumber, 0)
+//@   modifies p.pos
+//@   ensures p.pos >= old(p.pos)
+//@   ensures[signed-number] ret1 == nil ==> ret0 != nil && num_called && same(ret0.Value, math.Copysign(num_r0, ite(old(peekTok(p)) == lexer.Sub, -1.0, 1.0)))
+
+// ---- C05: label filter predicates.
+//
+// Explicit `and` binds tighter than `or`; a comma or a juxtaposed predicate joins the operand
+// with everything that follows. Each parser level stops only in front of a token that cannot
+// continue the predicate, so no connective is left unconsumed.
+
+//@ scope parser_pipeline.go
+
+//@ spec func isOrNode(e LabelPredicate) bool { return typeis[*LabelPredicateBinOp](e) && as[*LabelPredicateBinOp](e).Op == OpOr }
+//@ spec func predOp(t lexer.TokenType) BinOp {
+//@   if t == lexer.Eq || t == lexer.CmpEq { return OpEq }
+//@   if t == lexer.NotEq { return OpNotEq }
+//@   if t == lexer.Re { return OpRe }
+//@   if t == lexer.NotRe { return OpNotRe }
+//@   if t == lexer.Gt { return OpGt }
+//@   if t == lexer.Gte { return OpGte }
+//@   if t == lexer.Lt { return OpLt }
+//@   if t == lexer.Lte { return OpLte }
+//@   return 0
+//@ }
+//@ spec func numericCmpTok(t lexer.TokenType) bool {
+//@   return t == lexer.CmpEq || t == lexer.NotEq || t == lexer.Lt || t == lexer.Lte || t == lexer.Gt || t == lexer.Gte
+//@ }
+//@ spec func stringCmpTok(t lexer.TokenType) bool { return t == lexer.Eq || t == lexer.NotEq || t == lexer.Re || t == lexer.NotRe }
+
+//@ func (*parser).parseLabelPredicate
+//@   requires p.pos >= 0
+//@   capture l = call(p.parseLabelPredicateAnd, 0)
+//@   capture pk = call(p.peek, 0)
+//@   capture r = call(p.parseLabelPredicate, 0)
+//@   modifies p.pos
+//@   ensures p.pos >= old(p.pos)
+//@   ensures[or-token-joins] ret1 == nil ==> r_called == (pk_r0.Type == lexer.Or)
+//@   ensures[or-node] ret1 == nil && r_called ==> typeis[*LabelPredicateBinOp](ret0) && as[*LabelPredicateBinOp](ret0).Op == OpOr &&
+//@       as[*LabelPredicateBinOp](ret0).Left == l_r0 && as[*LabelPredicateBinOp](ret0).Right == r_r0
+//@   ensures[single-and-group] ret1 == nil && !r_called ==> ret0 == l_r0
+//@   ensures[left-of-or-is-and-group] ret1 == nil ==> !isOrNode(l_r0)
+//@   ensures[maximal] ret1 == nil ==> peekTok(p) != lexer.Or && peekTok(p) != lexer.And && peekTok(p) != lexer.Comma && peekTok(p) != lexer.Ident
+
+//@ func (*parser).parseLabelPredicateAnd
+//@   requires p.pos >= 0
+//@   capture l = call(p.parseLabelPredicateOperand, 0)
+//@   capture pk = call(p.peek, 0)
+//@   capture r = call(p.parseLabelPredicateAnd, 0)
+//@   modifies p.pos
+//@   ensures p.pos >= old(p.pos)
+//@   ensures[and-token-joins] ret1 == nil ==> r_called == (pk_r0.Type == lexer.And)
+//@   ensures[and-node] ret1 == nil && r_called ==> typeis[*LabelPredicateBinOp](ret0) && as[*LabelPredicateBinOp](ret0).Op == OpAnd &&
+//@       as[*LabelPredicateBinOp](ret0).Left == l_r0 && as[*LabelPredicateBinOp](ret0).Right == r_r0
+//@   ensures[single-operand] ret1 == nil && !r_called ==> ret0 == l_r0
+//@   ensures[never-a-bare-or] ret1 == nil ==> !isOrNode(ret0)
+//@   ensures[maximal] ret1 == nil ==> peekTok(p) != lexer.And && peekTok(p) != lexer.Comma && peekTok(p) != lexer.Ident
+
+//@ spec func leafOf(e LabelPredicate, joined bool) LabelPredicate { return ite(joined, as[*LabelPredicateBinOp](e).Left, e) }
+
+//@ func (*parser).parseLabelPredicateOperand
+//@   requires p.pos >= 0
+//@   capture inner = call(p.parseLabelPredicate, 0)
+//@   capture rest = call(p.parseLabelPredicate, 1)
+//@   capture str = call(p.parseString, 0)
+//@   capture num = call(p.parseNumber, 0)
+//@   capture dur = call(p.parseDuration, 0)
+//@   capture byt = call(p.parseBytes, 0)
+//@   capture ips = call(p.parseString, 1)
+//@   modifies p.pos
+//@   ensures p.pos >= old(p.pos)
+//@   ensures[starts-with-label-or-paren] ret1 == nil ==> old(peekTok(p)) == lexer.Ident || old(peekTok(p)) == lexer.OpenParen
+//@   ensures[joined-with-and] ret1 == nil && rest_called ==> typeis[*LabelPredicateBinOp](ret0) && as[*LabelPredicateBinOp](ret0).Op == OpAnd && as[*LabelPredicateBinOp](ret0).Right == rest_r0
+//@   ensures[never-a-bare-or] ret1 == nil ==> !isOrNode(ret0) && !typeis[*LabelPredicateBinOp](leafOf(ret0, rest_called))
+//@   ensures[paren] ret1 == nil && old(peekTok(p)) == lexer.OpenParen ==> inner_called && typeis[*LabelPredicateParen](leafOf(ret0, rest_called)) && as[*LabelPredicateParen](leafOf(ret0, rest_called)).X == inner_r0
+//@   ensures[string-matcher] ret1 == nil && old(peekTok(p)) == lexer.Ident && tokType(p, old(p.pos)+2) == lexer.String ==>
+//@       typeis[*LabelMatcher](leafOf(ret0, rest_called)) && stringCmpTok(tokType(p, old(p.pos)+1)) &&
+//@       as[*LabelMatcher](leafOf(ret0, rest_called)).Label == Label(tokText(p, old(p.pos))) &&
+//@       as[*LabelMatcher](leafOf(ret0, rest_called)).Op == predOp(tokType(p, old(p.pos)+1)) &&
+//@       as[*LabelMatcher](leafOf(ret0, rest_called)).Value == tokText(p, old(p.pos)+2) &&
+//@       ((tokType(p, old(p.pos)+1) == lexer.Re || tokType(p, old(p.pos)+1) == lexer.NotRe) ==> as[*LabelMatcher](leafOf(ret0, rest_called)).Re != nil)
+//@   ensures[number-filter] ret1 == nil && old(peekTok(p)) == lexer.Ident && tokType(p, old(p.pos)+2) == lexer.Number ==>
+//@       typeis[*NumberFilter](leafOf(ret0, rest_called)) && numericCmpTok(tokType(p, old(p.pos)+1)) && num_called &&
+//@       as[*NumberFilter](leafOf(ret0, rest_called)).Label == Label(tokText(p, old(p.pos))) &&
+//@       as[*NumberFilter](leafOf(ret0, rest_called)).Op == predOp(tokType(p, old(p.pos)+1)) &&
+//@       same(as[*NumberFilter](leafOf(ret0, rest_called)).Value, num_r0)
+//@   ensures[duration-filter] ret1 == nil && old(peekTok(p)) == lexer.Ident && tokType(p, old(p.pos)+2) == lexer.Duration ==>
+//@       typeis[*DurationFilter](leafOf(ret0, rest_called)) && numericCmpTok(tokType(p, old(p.pos)+1)) && dur_called &&
+//@       as[*DurationFilter](leafOf(ret0, rest_called)).Label == Label(tokText(p, old(p.pos))) &&
+//@       as[*DurationFilter](leafOf(ret0, rest_called)).Op == predOp(tokType(p, old(p.pos)+1)) &&
+//@       as[*DurationFilter](leafOf(ret0, rest_called)).Value == dur_r0
+//@   ensures[bytes-filter] ret1 == nil && old(peekTok(p)) == lexer.Ident && tokType(p, old(p.pos)+2) == lexer.Bytes ==>
+//@       typeis[*BytesFilter](leafOf(ret0, rest_called)) && numericCmpTok(tokType(p, old(p.pos)+1)) && byt_called &&
+//@       as[*BytesFilter](leafOf(ret0, rest_called)).Label == Label(tokText(p, old(p.pos))) &&
+//@       as[*BytesFilter](leafOf(ret0, rest_called)).Op == predOp(tokType(p, old(p.pos)+1)) &&
+//@       as[*BytesFilter](leafOf(ret0, rest_called)).Value == byt_r0
+//@   ensures[ip-filter] ret1 == nil && old(peekTok(p)) == lexer.Ident && tokType(p, old(p.pos)+2) == lexer.IP ==>
+//@       typeis[*IPFilter](leafOf(ret0, rest_called)) && (tokType(p, old(p.pos)+1) == lexer.CmpEq || tokType(p, old(p.pos)+1) == lexer.NotEq) &&
+//@       as[*IPFilter](leafOf(ret0, rest_called)).Label == Label(tokText(p, old(p.pos))) &&
+//@       as[*IPFilter](leafOf(ret0, rest_called)).Op == predOp(tokType(p, old(p.pos)+1)) &&
+//@       tokType(p, old(p.pos)+3) == lexer.OpenParen && tokType(p, old(p.pos)+4) == lexer.String && tokType(p, old(p.pos)+5) == lexer.CloseParen &&
+//@       as[*IPFilter](leafOf(ret0, rest_called)).Value == tokText(p, old(p.pos)+4)
+//@   ensures[literal-kinds] ret1 == nil && old(peekTok(p)) == lexer.Ident ==> tokType(p, old(p.pos)+2) == lexer.String || tokType(p, old(p.pos)+2) == lexer.Number ||
+//@       tokType(p, old(p.pos)+2) == lexer.Duration || tokType(p, old(p.pos)+2) == lexer.Bytes || tokType(p, old(p.pos)+2) == lexer.IP
+//@   ensures[maximal] ret1 == nil ==> peekTok(p) != lexer.Comma && peekTok(p) != lexer.Ident
+
+//@ func compileLabelRegex
+//@   trusted
+//@   modifies nothing
+//@   ensures ret1 == nil ==> ret0 != nil
